@@ -705,6 +705,8 @@ func checkQueuesStructure(partition *PartitionConfig) error {
 		} else {
 			// make sure root is a parent
 			partition.Queues[0].Parent = true
+			// queue names are case-insensitive: the partition is loaded with the lower case name only
+			partition.Queues[0].Name = RootQueue
 		}
 	}
 
